@@ -115,13 +115,15 @@ def refineResult [Add α] [Sub α] [Mul α] [Div α] [HasFloor α] (L : Layout) 
 /-! ### the fitted region
 
   mask = droplet._get_phase_field(grid, dtype=bool)
-  dilation_iterations = 1 + int(2 * droplet.interface_width)          `fitIterations`
+  width_in_cells = droplet.interface_width / grid.typical_discretization
+  dilation_iterations = 1 + int(2 * width_in_cells)                     `fitIterations`  (repair 8d4e282: cells, not physical units)
   mask = ndimage.binary_dilation(mask, iterations=dilation_iterations)   (scipy: contract) -/
 
-/-- number of dilation steps (in CELLS) for an interface width `w ≥ 0` -/
-def fitIterations (w : Rat) : Nat := 1 + (2 * w).floor.toNat
+/-- number of dilation steps for an interface width `w ≥ 0` on a grid with typical cell size `dx > 0`:
+twice the width IN CELLS, rounded down, plus one -/
+def fitIterations (w dx : Rat) : Nat := 1 + (2 * (w / dx)).floor.toNat
 
-/-- the same at `Float` (the driver) -/
-def fitIterationsF (w : Float) : Nat := 1 + (Float.floor (2 * w)).toUInt64.toNat
+/-- the same at `Float` (the driver), with the operations in the order of the code -/
+def fitIterationsF (w dx : Float) : Nat := 1 + (Float.floor (2 * (w / dx))).toUInt64.toNat
 
 end DV.Refine
